@@ -11,8 +11,11 @@ from ..core import MachineryError, pmap
 CH = {"S": "a", "H": "-", "U": "_", "N": "!"}
 
 
+LETTER = ["a"]      # the letter that stands for class S: "a", or an identifier character that NFKC changes
+
+
 def text(n):
-    return "".join(CH[c] for c in n)
+    return "".join(LETTER[0] if c == "S" else CH[c] for c in n)
 
 
 def definer(c, N, V):
@@ -147,7 +150,11 @@ def run_program(text_):
 
 
 def _one(rec):
-    return run_program(program(rec))
+    LETTER[0] = rec.get("letter", "a")
+    try:
+        return run_program(program(rec))
+    finally:
+        LETTER[0] = "a"
 
 
 def visible_definer(rec):
@@ -182,9 +189,14 @@ def main(run):
         rng.shuffle(double)
         double = double[:14000]
     rows = single + double
+    # the same programs with a letter that is a legal identifier character but not NFKC-stable (the micro sign,
+    # a fullwidth letter): the identifier of a name is its *normalized* mangling in every construct
+    alt = [dict(x, letter=l) for l in ("\u00b5", "\uff58") for x in single] + \
+          [dict(x, letter="\u00b5") for x in double[:: (7 if q else 2)]]
+    rows = rows + alt
     stats = {"seen": 0, "missing": 0, "pairs": {}}
     for rec, got in zip(rows, pmap(_one, rows)):
-        key = json.dumps([rec["d1"], rec["d2"], rec["u"]], sort_keys=True)
+        key = json.dumps([rec["d1"], rec["d2"], rec["u"]] + ([rec["letter"]] if "letter" in rec else []), sort_keys=True)
         run.case(key)
         uc = rec["u"]["c"][0]
         if rec["expect"] == 0:
@@ -196,6 +208,7 @@ def main(run):
         pk = f"{rec['d1']['c'][0]}>{uc}"
         stats["pairs"][pk] = stats["pairs"].get(pk, 0) + 1
         g = {k: v for k, v in got.items() if k != "msg"}
+        LETTER[0] = rec.get("letter", "a")
         if g != want:
             prog = program(rec)
             run.violation(key, f"definition via {rec['d1']['c'][0]} of {text(rec['d1']['n'])!r}"
@@ -204,6 +217,7 @@ def main(run):
                           {"program": prog, "spec": rec, "got": got, "want": want})
         else:
             run.cov["traces_validated_against_impl"] += 1
+    LETTER[0] = "a"
     npairs = len(stats["pairs"])
     stats["pairs"] = npairs
     if stats["seen"] == 0 or stats["missing"] == 0:
@@ -214,6 +228,7 @@ def main(run):
                       "parameter, keyword argument, mangled dict key, dotted / (. ) / class-body / method / setattr attributes) x 16 "
                       "using constructs (read, argument, f-string field, dotted head, global, del, macro call, keyword call, (:k d), "
                       "mangled get, dotted / (. ) / method call / dotted call / getattr) of the same namespace x 10 names each "
-                      "(hyphen vs underscore, leading hyphen / underscore, trailing hyphen, illegal characters), with an optional "
+                      "(hyphen vs underscore, leading hyphen / underscore, trailing hyphen, illegal characters; the letter an ASCII one or "
+                      "one that NFKC normalization changes), with an optional "
                       "second definition in between; the use must see the last definition whose name mangles to the same "
                       "identifier, else nothing", extra=stats)
